@@ -32,7 +32,7 @@ def run(ctx):
     for _ in range(ctx.n(150, 2500)):
         n = ctx.rng.randint(2, 8)
         strat = ctx.rng.random() < 0.5
-        labels = ctx.rng.choice([[0, 1], ["T", "C"], [1, 2, 3], ["a", "b", "c"]])
+        labels = ctx.rng.choice([[0, 1], ["T", "C"], [1, 2, 3], ["a", "b", "c"], [9, 10], [-2, -1, 10]])
         group = [ctx.rng.choice(labels) for _ in range(n)]
         strata = [ctx.rng.choice([1, 2, 2, 5]) for _ in range(n)]
         resp = [[float(ctx.rng.randint(0, 9)), float(ctx.rng.randint(0, 9))] for _ in range(n)]
@@ -100,6 +100,41 @@ def run(ctx):
             return f"{'simnpc' if h['op'] == 'simnpc' else 'wy'}@{int(h['in_place'])}@{rows3(h['draws'])}"
         ops.append(f"history|{int(strat)}|{ints([code[v] for v in group])}|{ints(strata)}|{'&'.join(opstr(h) for h in hist)}")
         meta.append(("history", det, states))
+    # ---- one Randomizer object shared by Experiments of equal size but different stratification (as in the
+    #      package's own tests): every randomisation must respect the strata of the Experiment it is applied to
+    for _ in range(ctx.n(80, 1000)):
+        n = ctx.rng.randint(3, 8)
+        shared = npc.Experiment.Randomizer(randomize=npc.randomize_in_strata, seed=ctx.rng.randint(0, 10**6))
+        exps = []
+        for _k in range(ctx.rng.randint(2, 3)):
+            group = [ctx.rng.choice(["T", "C", "P"]) for _ in range(n)]
+            strata = [ctx.rng.choice([1, 2, 3]) for _ in range(n)]
+            exps.append((npc.Experiment(group, [[float(i)] for i in range(n)], [[s, 0] for s in strata], shared), group, strata))
+        tests = npc.Experiment.make_test_array(npc.Experiment.TestFunc.one_way_anova, [0])
+        bad = None
+        for step in range(ctx.rng.randint(2, 6)):
+            e, group, strata = ctx.rng.choice(exps)
+            which = ctx.rng.choice(["randomize", "sim_npc", "westfall_young"])
+            ip = ctx.rng.random() < 0.6
+            if which == "randomize":
+                r = guarded(e.randomize, ip); target = r[1] if (r[0] == "ok" and not ip) else e
+            elif which == "sim_npc":
+                r = guarded(npc.sim_npc, e, tests * 2, "tippett", ip, 2); target = e
+            else:
+                r = guarded(npc.westfall_young, e, tests, "maxT", "greater", ip, 2); target = e
+            if r[0] != "ok":
+                bad = {"issue": "operation failed", "returned": r[1:]}; break
+            for (ee, g0, st) in exps + ([(target, group, strata)] if target is not e else []):
+                now = np.array(ee.group.tolist(), dtype=object)
+                if any(Counter(now[np.array(st) == s].tolist()) != Counter(np.array(g0, dtype=object)[np.array(st) == s].tolist()) for s in set(st)):
+                    bad = {"issue": "with a Randomizer shared between Experiments, labels moved between the strata of an Experiment",
+                           "group_now": now.tolist(), "original": g0, "strata": st, "after_operation": which, "in_place": ip}; break
+            if bad:
+                break
+        ctx.case(("shared-randomizer", n, repr([(g, s) for _, g, s in exps])), True); ctx.count("shared-randomizer-histories")
+        if bad:
+            bad["call"] = "Experiment history with a shared stratified Randomizer"
+            ctx.violation("oracle", bad, site="Experiment")
     # ---- seeded randomisation from the same assignment is reproducible
     for _ in range(ctx.n(60, 600)):
         n = ctx.rng.randint(2, 7); group = [ctx.rng.choice(["x", "y", "z"]) for _ in range(n)]
@@ -127,7 +162,7 @@ def run(ctx):
     # ---- built-in test functions and make_test_array
     for _ in range(ctx.n(150, 2000)):
         n = ctx.rng.randint(3, 9)
-        labels = ctx.rng.choice([[0, 1], ["T", "C"], [3, 1, 2]])
+        labels = ctx.rng.choice([[0, 1], ["T", "C"], [3, 1, 2], [9, 10], [2, 10], [100, 99], [-2, -1], [-10, -9], [10, 9, 100]])
         group = [ctx.rng.choice(labels) for _ in range(n)]
         for l in labels:
             if l not in group:
